@@ -415,9 +415,16 @@ def wantTransition (st : DecState) (b : Body) : Bool :=
     ((decide (b.mode = MODE_CELT) && decide (st.prev_mode ≠ MODE_CELT) && decide (st.prev_redundancy = 0))
       || (decide (b.mode ≠ MODE_CELT) && decide (st.prev_mode = MODE_CELT)))
 
-/-- The inner concealment call for a transition (:376 / :514); its return value is ignored. -/
+/-- A recursive `opus_decode_frame` call made with the decoder gain saved, cleared and restored (:375-380 / :517-522,
+    since 7e7e38ec): the gain is applied once, by the outer frame, to the cross-faded output. -/
+def gain0Call (inner : Ptr → Int → Run → Res') (p : Ptr) (n : Int) (r : Run) : Res' :=
+  let res := inner p n (r.setSt { r.st with decode_gain := 0 })
+  (res.1, res.2.setSt { res.2.st with decode_gain := r.st.decode_gain })
+
+/-- The inner concealment call for a transition (:373-381 / :515-523), run with `decode_gain = 0`; its return value is
+    ignored. -/
 def transCall (trans : Ptr → Int → Run → Res') (b : Body) (r : Run) : Out Unit × Run :=
-  bindRun (trans (transBuf r.st) (min (F5 r.st) b.audiosize) r) fun _ r' => (.ret (), r')
+  bindRun (gain0Call trans (transBuf r.st) (min (F5 r.st) b.audiosize) r) fun _ r' => (.ret (), r')
 
 /-- Redundancy parse when applicable (:471-499), else "no redundancy". -/
 def redStage (o : Oracle) (b : Body) (tell : Int) (r : Run) : Red × Run :=
